@@ -171,12 +171,17 @@ type evNode struct {
 	parkCh   chan struct{}
 	unpark   bool // a held poll has been released and not yet served
 	ended    bool
-	rQueue   []string
-	rCur     string
-	rHead    bool // the current request's head read was served
-	rRcpt    bool // the current request's receipt read was served
-	rDone    bool
+	// re-observation step: request 0 is the scripted one, request 1 the sentinel (transaction "tS": one deep
+	// message of the core contract in block 1, mined by the harness at the start of every scenario).  Whatever
+	// calls the handler makes and in whatever order, a request is over when the next one is accepted, and the
+	// sentinel is over when its message has arrived on the output channel.
+	rTx      [2]string
+	rStarted [2]bool
+	rHeadOK  [2]bool // a head read was served for this request
+	rRcptOK  [2]bool // a receipt read was served for this request
 	rMid     []evStep
+	rStash   map[string]string // failures armed for re-observation calls, set aside while the sentinel runs
+	sFwd     int               // sentinel messages seen on the output channel
 	mid      []evMid
 	nRcpt    int
 	slow     bool
@@ -307,7 +312,11 @@ func (n *evNode) drain() {
 	for {
 		select {
 		case m := <-n.msgC:
-			n.emit("Forward", n.describe(m), nil)
+			d := n.describe(m)
+			if d["tx"] == "tS" {
+				n.sFwd++
+			}
+			n.emit("Forward", d, nil)
 		default:
 			return
 		}
@@ -474,6 +483,12 @@ func (n *evNode) applyEnv(st evStep) {
 		}
 		n.rcpt[tx].status = 0
 		n.emit("FailTx", map[string]interface{}{"tx": tx}, nil)
+	case "Disarm":
+		k := vhStr(a, "kind")
+		if _, ok := n.armed[k]; ok {
+			delete(n.armed, k)
+			n.emit("Disarm", map[string]interface{}{"kind": k}, nil)
+		}
 	case "Arm":
 		k, text := vhStr(a, "kind"), vhStr(a, "text")
 		if _, ok := evErrTexts[text]; !ok {
@@ -516,6 +531,34 @@ func (n *evNode) fails(kind string) error {
 	return nil
 }
 
+// rAttr notes that a call belongs to request i of the re-observation step in progress; the first call of a
+// request is the proof that the handler has taken it (R_Req).  The sentinel must run to its end, so failures
+// armed for re-observation calls are set aside (logged as environment steps) while it runs.
+func (n *evNode) rAttr(i int) {
+	if n.rStarted[i] {
+		return
+	}
+	n.rStarted[i] = true
+	if i == 1 {
+		for _, k := range []string{"rhead", "rreceipt", "rtime"} {
+			if text, ok := n.armed[k]; ok {
+				n.rStash[k] = text
+				n.applyEnv(evStep{Ev: "Disarm", A: map[string]interface{}{"kind": k}})
+			}
+		}
+	}
+	n.emit("R_Req", map[string]interface{}{"tx": n.rTx[i]}, nil)
+}
+
+// rGap applies the scripted chain changes between the two requests (head read, receipt read) of the scripted
+// re-observation, whichever of the two the handler makes first.
+func (n *evNode) rGap() {
+	for _, st := range n.rMid {
+		n.applyEnv(st)
+	}
+	n.rMid = nil
+}
+
 // ---------------------------------------------------------------- the `eth` JSON-RPC service
 
 type evEth struct{ n *evNode }
@@ -549,28 +592,22 @@ func (e *evEth) GetBlockByNumber(ctx context.Context, tag string, full bool) (ma
 	resp := map[string]interface{}{"number": (*hexutil.Big)(new(big.Int).SetUint64(num)), "hash": n.blkHash(num, n.canon(num))}
 	switch {
 	case n.phase == 2:
-		if len(n.rQueue) > 0 && (n.rCur == "" || n.rHead) {
-			// a head read that does not belong to the request in progress starts the next request
-			n.rCur, n.rHead, n.rRcpt = n.rQueue[0], false, false
-			n.rQueue = n.rQueue[1:]
-			n.emit("R_Req", map[string]interface{}{"tx": n.rCur}, nil)
+		// the sentinel's head read: the sentinel has started (its receipt was asked for first), or the scripted
+		// request already had its head read
+		i := 0
+		if n.rStarted[1] || n.rHeadOK[0] {
+			i = 1
 		}
-		n.rHead = true
+		n.rAttr(i)
+		first := !n.rHeadOK[i] && !n.rRcptOK[i]
+		n.rHeadOK[i] = true
 		if err := n.fails("rhead"); err != nil {
 			n.emit("R_Head", map[string]interface{}{"tag": tag, "ok": false, "n": 0, "err": err.Error()}, nil)
-			if n.rCur == "t0" {
-				n.rDone = true
-			}
 			return nil, err
 		}
 		n.emit("R_Head", map[string]interface{}{"tag": tag, "ok": true, "n": int(num)}, nil)
-		if n.rCur != "t0" {
-			for _, st := range n.rMid {
-				n.applyEnv(st)
-			}
-			n.rMid = nil
-		} else if n.rRcpt {
-			n.rDone = true
+		if i == 0 && first {
+			n.rGap()
 		}
 		return resp, nil
 	case !n.initDone:
@@ -601,6 +638,11 @@ func (e *evEth) GetBlockByHash(ctx context.Context, h ethcommon.Hash, full bool)
 	ev, kind := "L_BlockTime", ""
 	if n.phase == 2 {
 		ev, kind = "R_BlockTime", "rtime"
+		if ok && b == [2]int{1, 0} {
+			n.rAttr(1)
+		} else {
+			n.rAttr(0)
+		}
 	}
 	if !ok {
 		n.emit(ev, map[string]interface{}{"blk": []int{-1, -1}, "ok": false}, nil)
@@ -626,24 +668,22 @@ func (e *evEth) GetTransactionReceipt(ctx context.Context, h ethcommon.Hash) (*e
 	if !ok {
 		tx = "?" + h.Hex()
 	}
-	if h == evHash("tx|", n.sc, "|", "t0") {
-		tx = "t0"
-	}
 	ev, kind := "H_Receipt", "hreceipt"
+	gap := false
 	if n.phase == 2 {
 		ev, kind = "R_Receipt", "rreceipt"
-		if len(n.rQueue) > 0 && n.rQueue[0] == tx && (n.rCur != tx || n.rRcpt) {
-			// the handler asked for the receipt of a request whose head read we have not seen
-			n.rCur, n.rHead, n.rRcpt = tx, false, false
-			n.rQueue = n.rQueue[1:]
-			n.emit("R_Req", map[string]interface{}{"tx": tx}, nil)
+		i := 0
+		if tx == "tS" {
+			i = 1
 		}
-		n.rRcpt = true
+		n.rAttr(i)
+		gap = i == 0 && !n.rHeadOK[0] && !n.rRcptOK[0]
+		n.rRcptOK[i] = true
 	}
 	after := func() {
 		if n.phase == 2 {
-			if tx == "t0" && n.rHead {
-				n.rDone = true
+			if gap {
+				n.rGap()
 			}
 			return
 		}
@@ -984,37 +1024,50 @@ func (r *evRun) reobserve(st evStep) bool {
 		return false
 	}
 	tx := vhStr(st.A, "tx")
+	if tx == "tS" {
+		tx = "tS?" // the sentinel's name is reserved
+	}
 	n.mu.Lock()
+	n.drain()
 	n.phase = 2
 	n.txHash(tx)
-	n.rQueue = []string{tx, "t0"}
-	n.rCur, n.rHead, n.rRcpt = "", false, false
-	n.rDone = false
+	n.rTx = [2]string{tx, "tS"}
+	n.rStarted, n.rHeadOK, n.rRcptOK = [2]bool{}, [2]bool{}, [2]bool{}
+	n.rStash = map[string]string{}
 	n.rMid = nil
 	for _, m := range st.Mid {
 		n.rMid = append(n.rMid, m.Steps...)
 	}
+	before := n.sFwd
 	n.mu.Unlock()
 	res := true
-	for _, name := range []string{tx, "t0"} {
+	for _, name := range []string{tx, "tS"} {
 		h := evHash("tx|", n.sc, "|", name)
 		select {
 		case r.reqC <- &gossipv1.ObservationRequest{ChainId: uint32(n.chainID), TxHash: h[:]}:
 		case <-time.After(evDeadline):
-			r.line("Stall", map[string]interface{}{"what": "reobservation"}, nil)
+			r.line("Stall", map[string]interface{}{"what": "reobservation-not-taken"}, nil)
 			res = false
 		}
 		if !res {
 			break
 		}
 	}
-	if res && !r.waitFor(func() bool { n.mu.Lock(); defer n.mu.Unlock(); return n.rDone }) {
-		r.line("Timeout", map[string]interface{}{"what": "reobservation"}, nil)
+	// bounded liveness: the sentinel names a deep message of the core contract in a successful transaction and no
+	// call fails, so it has to come out (the deadline is >= 1000x the nominal latency)
+	if res && !r.waitFor(func() bool { n.mu.Lock(); defer n.mu.Unlock(); n.drain(); return n.sFwd > before }) {
+		r.line("Stall", map[string]interface{}{"what": "reobservation-no-output"}, nil)
 		res = false
 	}
 	n.mu.Lock()
 	n.drain()
 	n.phase = 0
+	for _, k := range []string{"rhead", "rreceipt", "rtime"} {
+		if text, ok := n.rStash[k]; ok {
+			n.applyEnv(evStep{Ev: "Arm", A: map[string]interface{}{"kind": k, "text": text}})
+		}
+	}
+	n.rStash = nil
 	n.mu.Unlock()
 	r.unpark()
 	return res && r.settle()
@@ -1096,6 +1149,10 @@ func evRunScenario(t *testing.T, tr *vhTrace, sc evScenario) {
 		r.line("Timeout", map[string]interface{}{"what": "init"}, nil)
 		return
 	}
+	n.mu.Lock()
+	n.applyEnv(evStep{Ev: "Mine", A: map[string]interface{}{"tx": "tS", "n": 1, "status": 1,
+		"logs": []interface{}{map[string]interface{}{"core": true, "topic": true, "sender": "sS", "seq": 1, "cl": 0}}}})
+	n.mu.Unlock()
 
 	alive := true
 	for _, st := range sc.Steps {
